@@ -352,9 +352,9 @@ private:
 
 class DeferredWriter {
 public:
-    void deferred_write(File&& file, const std::string& destination_path, std::function<void(const std::string&)> permission_callback)
+    void deferred_write(File&& file, const std::string& destination_path, bool should_backup, std::function<void(const std::string&)> permission_callback)
     {
-        m_deferred_writes.push_back(FileWrite { std::move(file), destination_path, std::move(permission_callback) });
+        m_deferred_writes.push_back(FileWrite { std::move(file), destination_path, should_backup, std::move(permission_callback) });
     }
 
     void deferred_remove(const std::string& path)
@@ -362,11 +362,15 @@ public:
         m_deferred_removals.push_back(path);
     }
 
-    void finalize()
+    void finalize(Backup& backup)
     {
         for (auto& deferred_write : m_deferred_writes) {
             // The directory may have been removed in the meantime by a later patch removing the last file in it.
             ensure_parent_directories(deferred_write.destination_path);
+            // The file is only moved out of the way now that what replaces it is written, so that it is
+            // not left missing should we never get here.
+            if (deferred_write.should_backup)
+                backup.make_backup_for(deferred_write.destination_path);
             File file(deferred_write.destination_path, std::ios_base::out | std::ios::trunc);
             deferred_write.source.write_entire_contents_to(file);
             deferred_write.permission_callback(deferred_write.destination_path);
@@ -387,6 +391,7 @@ private:
     struct FileWrite {
         File source;
         std::string destination_path;
+        bool should_backup;
         std::function<void(const std::string&)> permission_callback;
     };
 
@@ -426,7 +431,7 @@ static PermissionResult fix_permissions_if_needed(std::ostream& out, const Optio
 }
 
 void write_patched_result_to_file(const Patch& patch, const std::string& output_file_path, const PermissionResult& permission_result,
-    std::ios::openmode mode, DeferredWriter& deferred_writer, File& patched_file)
+    std::ios::openmode mode, DeferredWriter& deferred_writer, Backup& backup, bool should_backup, File& patched_file)
 {
     // Ensure that parent directories exist if we are adding a file.
     if (patch.operation == Operation::Add)
@@ -459,11 +464,15 @@ void write_patched_result_to_file(const Patch& patch, const std::string& output_
         if (filesystem::is_symlink(patch.new_file_mode)) {
             // A symlink patch should contain the filename in the contents of the patched file.
             const auto symlink_target = patched_file.read_all_as_string();
+            if (should_backup)
+                backup.make_backup_for(output_file_path);
             filesystem::symlink(symlink_target, output_file_path);
         } else {
-            deferred_writer.deferred_write(std::move(patched_file), output_file_path, std::move(permission_callback));
+            deferred_writer.deferred_write(std::move(patched_file), output_file_path, should_backup, std::move(permission_callback));
         }
     } else {
+        if (should_backup)
+            backup.make_backup_for(output_file_path);
         File file(output_file_path, mode | std::ios::trunc);
         patched_file.write_entire_contents_to(file);
         permission_callback(output_file_path);
@@ -671,9 +680,7 @@ int process_patch(const Options& options)
                 if (patch.operation == Operation::Add || patch.operation == Operation::Rename || patch.operation == Operation::Copy)
                     ensure_parent_directories(output_file);
 
-                if (should_backup)
-                    backup.make_backup_for(output_file);
-                write_patched_result_to_file(patch, output_file, permission_result, mode, deferred_writer, tmp_out_file);
+                write_patched_result_to_file(patch, output_file, permission_result, mode, deferred_writer, backup, should_backup, tmp_out_file);
             }
 
             if (result.failed_hunks == 0) {
@@ -688,7 +695,7 @@ int process_patch(const Options& options)
         }
     }
 
-    deferred_writer.finalize();
+    deferred_writer.finalize(backup);
 
     if (options.verbose)
         out << "done\n";
